@@ -408,6 +408,19 @@ Definition step (c : cdZ) (op : sx) : option cdZ * sx :=
       | Some c' => (Some c', L [I 7%Z; of_cd c'; of_Zs X])
       | None => (None, L [I (-1)%Z])
       end
+  | L [I 9%Z; vs2; es2; ar; before] =>   (* concatenate with an independent series (before or after) *)
+      let c2 := make Z.eqb (to_Zs vs2) (to_nats es2) in
+      let X2 := expand zd c2 in
+      let ps := if to_bool before then [c2; c] else [c; c2] in
+      match concatenate Z.eqb zd ps (to_bool ar) with
+      | Some cc => (Some cc, L [I 9%Z; of_cd cc; of_Zs (if to_bool before then X2 ++ X else X ++ X2)])
+      | None => (None, L [I (-1)%Z])
+      end
+  | L [I 10%Z; segs; I v] =>   (* partition, then remove v from the FIRST part only: siblings and parent unchanged *)
+      match partition c (to_nats segs) with
+      | p0 :: rest => (Some c, L [I 10%Z; of_cd (remove Z.eqb p0 v); L (map of_cd rest); of_cd c])
+      | [] => (None, L [I (-1)%Z])
+      end
   | L [I 8%Z] =>          (* segments *)
       (Some c, L [I 8%Z; L (map (fun t => L [of_nat (fst (fst t)); of_nat (snd (fst t)); I (snd t)]) (segments zd c))])
   | _ => (None, sx_err)
